@@ -300,6 +300,12 @@ func TestC15AsconAllBits(t *testing.T) {
 		if !vlib.Thorough() {
 			lens = []int{0, bs}
 		}
+		totalFlips := int64(0)
+		for _, pl := range lens {
+			for _, al := range lens {
+				totalFlips += int64(8 * (am.ref.KeyLen + 16 + al + pl + 16))
+			}
+		}
 		for _, pl := range lens {
 			for _, al := range lens {
 				idx++
@@ -339,7 +345,7 @@ func TestC15AsconAllBits(t *testing.T) {
 			}
 		}
 		if vlib.Thorough() && vlib.Shard == 0 {
-			vlib.Exhaustive("C15 "+sub+": all single-bit flips of key, nonce, ad, ct||tag for |pt|,|ad| in {0,1,bs-1,bs,bs+1,2bs}", 0, "one pseudorandom (key, nonce, ad, pt) per length pair and seed; all shards together")
+			vlib.Exhaustive("C15 "+sub+": all single-bit flips of key, nonce, ad, ct||tag for |pt|,|ad| in {0,1,bs-1,bs,bs+1,2bs}", totalFlips, "one pseudorandom (key, nonce, ad, pt) per length pair and seed; all shards together")
 		}
 	}
 }
